@@ -33,9 +33,9 @@ type DFSSpec struct {
 }
 
 type dfsReplay struct {
-	Scenario string `json:"scenario"`
-	Bound    int    `json:"bound"`
-	Schedule []int  `json:"schedule"`
+	Scenario string   `json:"scenario"`
+	Bound    int      `json:"bound"`
+	Schedule []int    `json:"schedule"`
 	Trace    []string `json:"trace,omitempty"`
 }
 
